@@ -13,7 +13,10 @@ META = {
     "engine": "httpgate",
     "text": "TLC enumerates every configuration vector (12 capability switches, 9216 configurations, each built in an "
             "environment -- URL prefix, CORS, human-facing pages -- tied to the switches so that every (environment, "
-            "switch) pair takes all value combinations, proved by TLC; quick tier: the 1152-configuration slice auth on / "
+            "switch) pair takes all value combinations, proved by TLC -- and SPELLED in one of the accepted ways: entry point "
+            "make_wsgi_app / make_sync_client / serve_http, response cap through the deprecated alias "
+            "max_stream_response_bytes, off settings omitted vs passed explicitly, compression_level omitted/1/3/22, "
+            "sticky_default_ttl omitted/float/int, limits of 0 (coverage of the spellings also proved by TLC); quick tier: the 1152-configuration slice auth on / "
             "maxResp=maxExt / proof=intro, 9 route kinds) x every applicable route kind (thorough: 25, incl. an "
             "authenticator crash -> 500, authority outage -> 503, CORS preflight, a path outside the prefix) "
             "with the header set the capability table demands; the driver builds one real app per configuration with "
@@ -71,39 +74,63 @@ ECHO_SETS = [{"fly-force-instance-id": "m1"}, {"X-Worker-Affinity": "w7", "x-sha
 
 
 def draw_vals(rng) -> dict:
-    big = lambda: rng.choice([rng.randrange(200_000, 2_000_000), rng.randrange(1 << 31, 1 << 40), 1 << 31, (1 << 53) - 1])
+    # 0 is a configured value too (not "unset"): the header must say 0
+    big = lambda: rng.choice([rng.randrange(200_000, 2_000_000), rng.randrange(1 << 31, 1 << 40), 1 << 31, (1 << 53) - 1, 0])
     any_ = lambda: rng.choice([0, 1, rng.randrange(2, 1 << 20), rng.randrange(1 << 31, 1 << 45)])
     return {"maxReq": big(), "maxResp": big(), "maxExt": any_(), "maxUpload": any_(),
             "ttl": rng.choice([1, 60, 300, 86400, rng.randrange(2, 100000)]), "echo": rng.choice(ECHO_SETS)}
 
 
 def build(cfg: dict, vals: dict, servers: dict):
+    """Build the app the way the configuration is SPELLED: entry point, deprecated alias, omitted vs explicit
+    'off' values, compression-level and TTL spellings (Caps.tla: entry / respAlias / explicitOff / compSpell / ttlSpell)."""
+    import contextlib
+    import io
+
     from vgi_rpc.http.server import make_wsgi_app
 
     server = servers[cfg["ext"]]
+    entry = cfg["entry"]
+    explicit = cfg["explicitOff"] or entry == "sync"
     kw: dict = {"token_key": b"k" * 32}
-    if cfg["maxReq"]:
-        kw["max_request_bytes"] = vals["maxReq"]
+
+    def setting(on: bool, key: str, value, off=None, serve_has: bool = True):
+        if entry == "serve" and not serve_has:
+            if on:
+                raise MachineryError(f"serve_http cannot express {key}")
+            return
+        if on:
+            kw[key] = value
+        elif explicit:
+            kw[key] = off
+
+    setting(cfg["maxReq"], "max_request_bytes", vals["maxReq"])
     if cfg["maxResp"]:
-        kw["max_response_bytes"] = vals["maxResp"]
-    if cfg["maxExt"]:
-        kw["max_externalized_response_bytes"] = vals["maxExt"]
-    if cfg["upload"]:
-        kw["upload_url_provider"] = _Provider()
-    if cfg["maxUpload"]:
-        kw["max_upload_bytes"] = vals["maxUpload"]
+        kw["max_stream_response_bytes" if cfg["respAlias"] else "max_response_bytes"] = vals["maxResp"]
+    elif explicit:
+        kw["max_response_bytes"] = None
+    setting(cfg["maxExt"], "max_externalized_response_bytes", vals["maxExt"])
+    setting(cfg["upload"], "upload_url_provider", _Provider(), serve_has=False)
+    setting(cfg["maxUpload"], "max_upload_bytes", vals["maxUpload"], serve_has=False)
     if cfg["comp"] == "none":
         kw["compression_level"] = None
+    elif cfg["compSpell"] != "default":
+        kw["compression_level"] = int(cfg["compSpell"])
     if cfg["sticky"]:
         kw["enable_sticky"] = True
-        kw["sticky_default_ttl"] = float(vals["ttl"])
-    if cfg["echo"]:
-        kw["sticky_echo_headers"] = dict(vals["echo"])
-    if cfg["proof"]:
-        kw["proxy_proof_required"] = True
+        if cfg["ttlSpell"] == "float":
+            kw["sticky_default_ttl"] = float(vals["ttl"])
+        elif cfg["ttlSpell"] == "int":
+            kw["sticky_default_ttl"] = int(vals["ttl"])
+    elif explicit:
+        kw["enable_sticky"] = False
+    setting(cfg["echo"], "sticky_echo_headers", dict(vals["echo"]), off=(None if cfg["proof"] else {}))
+    setting(cfg["proof"], "proxy_proof_required", True, off=False)
     if cfg["intro"]:
         kw["introspect_resolver"] = _resolver
-        kw["introspect_principals"] = ["proxy"]
+        kw["introspect_principals"] = [["proxy"], ("proxy",), frozenset({"proxy"})][vals["maxExt"] % 3]
+    elif explicit:
+        kw["introspect_resolver"] = None
     if cfg["auth"]:
         kw["authenticate"] = _authenticate
     if cfg["prefix"]:
@@ -116,7 +143,26 @@ def build(cfg: dict, vals: dict, servers: dict):
     if cfg["comp"] == "g":
         os.environ["VGI_HTTP_DISABLE_ZSTD"] = "1"
     try:
-        return make_wsgi_app(server, **kw)
+        if entry == "wsgi":
+            return make_wsgi_app(server, **kw)
+        if entry == "sync":
+            from vgi_rpc.http._testing import make_sync_client
+            return make_sync_client(server, **kw)._client.app
+        # serve_http: let it build its app, capture what it hands to waitress instead of serving
+        import waitress
+
+        from vgi_rpc.http.server import serve_http
+        captured: list = []
+        real_serve = waitress.serve
+        waitress.serve = lambda app, **_kw: captured.append(app)
+        try:
+            with contextlib.redirect_stdout(io.StringIO()), contextlib.redirect_stderr(io.StringIO()):
+                serve_http(server, install_signal_handlers=False, **kw)
+        finally:
+            waitress.serve = real_serve
+        if len(captured) != 1:
+            raise MachineryError("serve_http did not hand an app to waitress")
+        return captured[0]
     finally:
         os.environ.pop("VGI_HTTP_DISABLE_ZSTD", None)
         if old is not None:
@@ -163,7 +209,7 @@ def run(ctx: Ctx) -> None:
 
     consts = {"Slice": "quick" if ctx.quick else "full"}
     invs = ["AlwaysTwo", "RouteIndependent", "UploadBytesNeedsProvider", "StickyFamily", "EmittedOnlyFromTable",
-            "ApplicableCase", "EnvironmentIndependent"]
+            "ApplicableCase", "EnvironmentIndependent", "SpellingIndependent"]
     cases = U.enumerate_split(ctx, "httpgate", "Caps", constants=consts, invariants=invs)
     ctx.exhaustive = True
     ctx.rule = ("case = (configuration vector of 12 switches, route kind), all enumerated by TLC from Caps!Cases; one "
